@@ -607,19 +607,52 @@ def dfa_rust(pat, fname):
     for i, cl in enumerate(classes):
         cls_arms.append("        %s => %d," % (" | ".join("0x%X..=0x%X" % r if r[0] != r[1] else "0x%X" % r[0] for r in cl), i))
     rows = ", ".join("[%s]" % ", ".join(str(x) for x in row) for row in trans)
-    search = "" if s_anchor else """
+    common = dict(f=fname, nc=len(classes), ns=len(trans), rows=rows, acc=", ".join("true" if a else "false" for a in acc),
+                  arms="\n".join("    " + a for a in cls_arms), ret=("None" if e_anchor else "last"),
+                  fin=("if A[state] { Some(pos) } else { None }" if e_anchor else "last"))
+    if not s_anchor:
+        # unanchored pattern: byte-level matcher (manual UTF-8 decoding, no str slicing) started at every char boundary
+        return """
 /// unanchored pattern: leftmost match = first char boundary from which the anchored matcher succeeds
 fn %(f)s_search(s: &str) -> Option<(usize, usize)> {
+    let b = s.as_bytes();
     let mut i = 0;
     loop {
-        if let Some(n) = %(f)s(&s[i..]) { return Some((i, i + n)); }
-        if i >= s.len() { return None; }
+        if let Some(e) = %(f)s_at(b, i) { return Some((i, e)); }
+        if i >= b.len() { return None; }
         i += 1;
-        while i < s.len() && !s.is_char_boundary(i) { i += 1; }
+        while i < b.len() && (b[i] & 0xC0) == 0x80 { i += 1; }
     }
 }
-""" % dict(f=fname)
-    return search + """
+
+fn %(f)s(s: &str) -> Option<usize> { %(f)s_at(s.as_bytes(), 0) }
+
+fn %(f)s_at(b: &[u8], start: usize) -> Option<usize> {
+    const T: [[i8; %(nc)d]; %(ns)d] = [%(rows)s];
+    const A: [bool; %(ns)d] = [%(acc)s];
+    let mut state: usize = 0;
+    let mut pos = start;
+    let mut last = if A[0] { Some(start) } else { None };
+    while pos < b.len() {
+        let b0 = b[pos];
+        let (cp, l): (u32, usize) = if b0 < 0x80 { (b0 as u32, 1) }
+            else if b0 < 0xE0 { ((((b0 & 0x1F) as u32) << 6) | ((b[pos + 1] & 0x3F) as u32), 2) }
+            else if b0 < 0xF0 { ((((b0 & 0x0F) as u32) << 12) | (((b[pos + 1] & 0x3F) as u32) << 6) | ((b[pos + 2] & 0x3F) as u32), 3) }
+            else { ((((b0 & 0x07) as u32) << 18) | (((b[pos + 1] & 0x3F) as u32) << 12) | (((b[pos + 2] & 0x3F) as u32) << 6) | ((b[pos + 3] & 0x3F) as u32), 4) };
+        let cls: usize = match cp {
+%(arms)s
+            _ => return %(ret)s,
+        };
+        let n = T[state][cls];
+        if n < 0 { return %(ret)s; }
+        state = n as usize;
+        pos += l;
+        if A[state] { last = Some(pos); }
+    }
+    %(fin)s
+}
+""" % common
+    return """
 fn %(f)s(s: &str) -> Option<usize> {
     const T: [[i8; %(nc)d]; %(ns)d] = [%(rows)s];
     const A: [bool; %(ns)d] = [%(acc)s];
@@ -639,9 +672,7 @@ fn %(f)s(s: &str) -> Option<usize> {
     }
     %(fin)s
 }
-""" % dict(f=fname, nc=len(classes), ns=len(trans), rows=rows, acc=", ".join("true" if a else "false" for a in acc),
-           arms="\n".join("    " + a for a in cls_arms), ret=("None" if e_anchor else "last"),
-           fin=("if A[state] { Some(pos) } else { None }" if e_anchor else "last"))
+""" % common
 
 
 REGEX_MOCK = r'''
